@@ -154,6 +154,13 @@ def _builtin(ex, st, c, callee, args, fn):
         if isinstance(a, Struct) and isinstance(b, Struct) and len(a.f) == len(b.f):
             e = z3.And([x == y for x, y in zip(a.f, b.f)]) if a.f else z3.BoolVal(True)
             return e if c.endswith('::eq') else z3.Not(e)
+    m = re.match(r'^<(libc::)?(timespec|timeval) as PartialEq>::(eq|ne)$', c)
+    if m:
+        # libc's extra_traits PartialEq for plain C structs: field-wise equality
+        a, b = _val(ex, st, args[0]), _val(ex, st, args[1])
+        if isinstance(a, Struct) and isinstance(b, Struct) and len(a.f) == len(b.f) and all(isinstance(x, z3.ExprRef) for x in a.f + b.f):
+            e = z3.And([x == y for x, y in zip(a.f, b.f)])
+            return e if m.group(3) == 'eq' else z3.Not(e)
     if re.match(r'^<(Ordering|std::cmp::Ordering) as PartialEq>::(eq|ne)$', c):
         a, b = _val(ex, st, args[0]), _val(ex, st, args[1])
         e = a.disc() == b.disc()
@@ -428,6 +435,8 @@ def call_closure(ex, st, callee, closure, cargs):
 def _call_closure_on(ex, st, fn, v, variant, closure, callee, wrap):
     """Result::map / map_err with a closure whose body is in the dump"""
     m = re.search(r'\{closure@([^}]+)\}', callee)
+    if variant not in v.p and isinstance(v.d, int):
+        return v          # the mapped variant is statically absent: the value passes through unchanged
     if not m or variant not in v.p:
         return NotImplemented
     loc = m.group(1)
